@@ -6,6 +6,15 @@ spec:      spec/PkgRelation.tla        structures (conjunction of alternatives o
                                        PkgRelation.str, ParseAtom = __dep_RE as an automaton over
                                        token kinds (+ parse_archs, parse_restrictions), Parse = the
                                        comma and pipe splitters around it
+           spec/PkgRelationCount.tla   the COUNT dimension: the same invariants for structures in which one list
+                                       level -- conjunction, alternatives, architecture list, restriction groups,
+                                       terms of a group: one join of the formatter and one splitter of the parser
+                                       each -- has hundreds of items (quick: 256, 257, 258, 300, 1000 at the first /
+                                       a middle / the last position, 65 structures; thorough: 22 counts 1 .. 2049,
+                                       286 structures); negative control SplitLimit / LimitedSplits (a splitter that
+                                       stops after 256 separators, re.split(pattern, text, 256): the seeded change
+                                       C13-seedJ) -> CountProps at 258 items, while LimitBites (the invariants hold
+                                       exactly up to 257 items) holds
            spec/TracePkgRelation.tla   trace validation re-using Format / Parse
 model checking (closed): one focus atom ranging over ALL 3612 combinations of the optional parts
            (2 x {none, 5 operators} x arch lists of 1..2 plain/negated entries x formulas of 1..2
@@ -19,11 +28,15 @@ model checking (closed): one focus atom ranging over ALL 3612 combinations of th
            PipeFirst -> Inverse, FormatInKeyOrder -> FormatIgnoresKeyOrder (over all 24 orders of
            the optional parts); PkgRelationMemo: SharedNested (+ DeepStore) -> MemoTransparent
            (the quick tier leaves out RestrictionsFirst -> Stable and the DeepStore variant; the
-           thorough tier also model-checks the control configuration with every switch off).
+           thorough tier also model-checks the control configuration with every switch off);
+           PkgRelationCount: SplitLimit = 256 -> CountProps (thorough: also once per list level, and
+           LimitBites alone over all states).
 binding:   (a) every CASE line of TLC (the structure and its expected token string) is concretized
                (package names [a-z0-9][a-z0-9+.-]*, versions valid per DESIGN D2, architecture
                names, qualifiers, lower-case profile names) and replayed:
                parse_relations(str(r)) == r, no warning, str(parse(...)) == first string;
+               the CASE lines of PkgRelationCount (long lists) go exactly the same way, each with the
+               history, the container variants and the relations property;
            (b) random deeper structures (<= 5 conjuncts x 4 alternatives, 3 arch entries, 3 groups
                x 3 terms) go through the real str / parse_relations / str; the event logs the
                structure, the produced strings as token codes (independent tokenizer below) and the
@@ -57,8 +70,20 @@ public entry points (notes/API_SURFACE.md) -> where they are exercised:
   BuildInfo(...).relations[f]                  1 field     } == the string, absent fields [], two live objects
      paragraph built from dict / str / bytes / list of lines / Cls.iter_paragraphs(use_apt_pkg=False) /
      copy.deepcopy; key spelled lower / as in Policy / upper / title case (the dict lower-cases on lookup)
-                                               replay: every 8th case, rotating over 18 fields x 6 forms x 4
-                                               spellings; trace: every recorded execution (TLC: pm = Parse(t) = r)
+                                               replay: every 8th case and every long-list case, rotating over 18
+                                               fields x 34 forms x 4 spellings; trace: every recorded execution
+                                               (TLC: pm = Parse(t) = r)
+     paragraph read from a FILE OBJECT / line source, by Cls(f) and by Cls.iter_paragraphs(f, use_apt_pkg=False)
+     (notes/SIZE_STRESS.md part 4, harness/fileforms_c13.py): io.StringIO, io.BytesIO, io.TextIOWrapper, a real
+     file opened 'r' / 'rb' / 'rb' unbuffered, gzip.open(path), io.BufferedReader over a raw stream returning 1..7
+     bytes per read, gzip.GzipFile / bz2.BZ2File / lzma.LZMAFile over compressed bytes, SpooledTemporaryFile,
+     generators of bytes lines / of str lines without newline    same legs, same verdicts (the expectation does not
+                                               depend on the form); a third of these legs reads a text in which a pad
+                                               field puts the newline that ends the relation field / the line before
+                                               it / the input, or a separator inside the value, on offset 2**k + d
+                                               (k = 9 .. 17, d = -2 .. 1; evidence: aligned_cases, aligned_offsets,
+                                               file_object_kinds); the long-list fields (10 KB .. 1 MB) cross many
+                                               block boundaries by themselves
   relations after d[f] = new / del d[f] /      UNSPECIFIED (lazily computed snapshot of the paragraph as
      a field added after construction          constructed; lead's decision): executed, outcomes counted in the
                                                evidence, the two shapes seen on the pinned tree recorded as drift
@@ -79,11 +104,18 @@ concretization dimensions the abstract structure does not have (PkgRelation.tla:
            must format identically and parse back; container types (tuples for the lists, plain
            tuples for the entries: same string where the formatter accepts them, rejection is
            unspecified); sizes per notes/SIZE_STRESS.md: payloads of boundary lengths 1 .. 8193,
-           epochs of 2 .. 19 digits with leading zeros, boundary numbers up to 10**18, 9 .. 101
-           conjuncts / alternatives / arch entries / groups / terms, identical items -- in the
-           replay (every 16th case, thorough 8th; big counts by repeating the case's items) and
-           in the recorder (4 % of the payloads; 10 / 40 big-count structures per run).  Tokens
-           are class symbols with ids, so TLC's expectation is length-independent by construction.
+           epochs of 2 .. 19 digits with leading zeros, boundary numbers up to 10**18, identical items
+           -- in the replay (every 16th case, thorough 8th) and in the recorder (4 % of the payloads).
+           Tokens are class symbols with ids, so TLC's expectation is length-independent by construction.
+counts:    the length of EVERY list level is part of the domain ("a conjunction of alternatives ..."
+           of any length; Installed-Build-Depends of real .buildinfo files has 200 - 700 conjuncts):
+           (1) PkgRelationCount (above): TLC states the invariants for 256 .. 1000 (thorough .. 2049)
+           items at each of the five levels and every such structure is replayed; (2) one ordinary
+           case in 512 (thorough 128) is repeated to 9 .. 101, 255 .. 259, 300 or 1000 items at a
+           rotating level (big_variant: the items of TLC's case, identical items included); (3) the
+           recorder adds, per level, structures with 9 .. 101 items and one with 255 / 256 / 257, one
+           with 258 / 259 / 300 and one with 1000 / 1024 / 1025 items (thorough: 255 .. 259, 300, 512
+           and one of the thousands) at a random position, which TLC validates like any other trace.
 verdict observables: parse_relations(str(r)) == r (TLC: Inverse), no warning (NoWarning), second
            string == first string (Stable), for every call of a history (MemoTransparent); any
            exception.
@@ -106,18 +138,20 @@ import zlib
 from concurrent.futures import ThreadPoolExecutor
 
 import core
+import fileforms_c13 as ff
 
 MANIFEST = dict(
-    technique="TLA+ specs PkgRelation + PkgRelationMemo (formatter as token sequence, the dependency regex as an automaton over token kinds with its optional groups in fixed order, the comma/pipe/blank/restriction splitters) model-checked by TLC over the closed space of all optional-part combinations x list shapes; every TLC case replayed into PkgRelation.str/parse_relations with concretized payloads; recorded executions on deeper random structures validated by TLC (TracePkgRelation); a memo layer with shared nested lists as history model, histories with in-place edits of returned structures replayed and recorded",
+    technique="TLA+ specs PkgRelation + PkgRelationMemo (formatter as token sequence, the dependency regex as an automaton over token kinds with its optional groups in fixed order, the comma/pipe/blank/restriction splitters) model-checked by TLC over the closed space of all optional-part combinations x list shapes; every TLC case replayed into PkgRelation.str/parse_relations with concretized payloads; recorded executions on deeper random structures validated by TLC (TracePkgRelation); a memo layer with shared nested lists as history model, histories with in-place edits of returned structures replayed and recorded; a count module (PkgRelationCount) with one long list per structure at each of the five list levels of the grammar",
     text="TLC enumerates every relation made of one focus atom -- all 3612 combinations of architecture qualifier, version constraint with each of the five operators, architecture lists of 1-2 plain or negated entries and restriction formulas of 1-2 groups of 1-2 plain or negated terms -- at every position of every list shape up to 3 conjuncts of 2 alternatives, surrounded by context atoms, and checks in each state Parse(Format(r)) = r, that the parser's warning fallback is never taken and Format(Parse(Format(r))) = Format(r); Parse is the one big regex written as an automaton over token kinds (name, qualifier, operator, version, arch, '!', profile, brackets, separators, blanks) with exactly the blank tolerance of the code. Each enumerated structure carries TLC's expected token string and is replayed into the real PkgRelation.str / parse_relations with package names over [a-z0-9+.-], versions with epoch, '~', '+' and hyphenated revisions, real architecture names, qualifiers and lower-case profile names: the parse must equal the structure exactly, without a warning, and formatting again must give the same string. In the other direction random deeper structures (5x4 atoms, 3 arch entries, 3x3 restriction terms) are formatted and parsed by the real code, the strings are tokenized independently and TLC must explain the parsed-back structure with Parse and find it equal to the input. The quick tier enumerates lists of up to 2 atoms (one alternative, two alternatives, two conjuncts) with bare-name context atoms (18 058 structures), the thorough tier up to 3 x 2 with bare and fully-equipped context atoms (368 350 structures).",
-    note="Characters inside a payload token are sampled, not enumerated; profile names are lower case (DESIGN D3: the parser lower-cases them). The exact blanks written by the formatter are diagnostic only (drift). Trusted: TLC, the concretizer, the small context-sensitive tokenizer used for the recorded strings (a wrong tokenization is rejected by TLC, never accepted). A diagnostic leg (never an alarm) feeds strings with randomly changed blanks to the real parser and lets TLC predict the outcome, warning path included. The round trip is also checked as a history: a small TLA+ model of a memo layer with object identity (PkgRelationMemo) states that no earlier call or caller-side edit may influence Parse; after every replayed case and every recorded execution the returned structure is edited in place, the same string is parsed twice more and a relation sharing an alternative makes the round trip, under the same verdicts. Input dicts are built with all 120 key insertion orders, tuple / plain-tuple containers and size-stressed payloads and counts (boundary lengths up to 8193 characters, epochs up to 19 digits, up to 101 conjuncts / alternatives / entries). Seven spec-level negative controls (five in the quick tier) and twelve corrupted control traces are required to fail in every run.",
+    note="Characters inside a payload token are sampled, not enumerated; profile names are lower case (DESIGN D3: the parser lower-cases them). The exact blanks written by the formatter are diagnostic only (drift). Trusted: TLC, the concretizer, the small context-sensitive tokenizer used for the recorded strings (a wrong tokenization is rejected by TLC, never accepted). A diagnostic leg (never an alarm) feeds strings with randomly changed blanks to the real parser and lets TLC predict the outcome, warning path included. The round trip is also checked as a history: a small TLA+ model of a memo layer with object identity (PkgRelationMemo) states that no earlier call or caller-side edit may influence Parse; after every replayed case and every recorded execution the returned structure is edited in place, the same string is parsed twice more and a relation sharing an alternative makes the round trip, under the same verdicts. Input dicts are built with all 120 key insertion orders, tuple / plain-tuple containers and size-stressed payloads (boundary lengths up to 8193 characters, epochs up to 19 digits). The length of every list level is a dimension of its own: a second TLA+ module (PkgRelationCount) states the same invariants for structures in which the conjunction, the alternatives of a conjunct, an architecture list, the groups of a restriction formula or the terms of a group have 256, 257, 258, 300 and 1000 items (thorough: 22 counts up to 2049), each replayed like any other case; ordinary cases are repeated to such counts and recorded executions with 255 - 1025 items per level are validated by TLC. The relations property is read from paragraphs built from str, bytes, lists, dicts and from fourteen kinds of file object / line source (real files buffered and unbuffered, short-read streams, gzip / bz2 / lzma wrappers, spooled files, generators) through the constructor and iter_paragraphs, a third of them with a line end or a separator of the value placed on a block boundary (2**9 .. 2**17, -2 .. +1). Eight spec-level negative controls (six in the quick tier; thirteen TLC runs in the thorough tier) and the corrupted control traces are required to fail in every run.",
     design="5 (C13)")
 
 OPS = ["<<", "<=", "=", ">=", ">>"]
 KINDS = ["name", "colon", "qual", "lpar", "op", "ver", "rpar", "lbr", "bang", "arch", "rbr", "lt", "prof", "gt",
          "comma", "pipe", "sp", "x"]
 KNO = {k: i + 1 for i, k in enumerate(KINDS)}
-BAD = 999          # token code of the id Bad
+TOKBASE = 100000   # token code = kind * TOKBASE + id (PkgRelation.tla: TokBase)
+BAD = TOKBASE - 1  # token code of the id Bad
 BAD_ID = -1        # Bad in structures
 _WORD = re.compile(r"[A-Za-z0-9.+~_-]+")
 _VERWORD = re.compile(r"[A-Za-z0-9.+~:_-]+")
@@ -139,11 +173,17 @@ PROF_POOL = ["nocheck", "stage1", "cross", "pkg.foo.bar", "nodoc", "stage2", "no
              "noinsttest", "pkg.src-pkg.with+plus", "nojava", "nopython", "noguile", "pkg.a.b", "x1"]
 NAME_REST = "abcdefghijklmnopqrstuvwxyz0123456789+.-"
 VER_UP = "ABCxyzabcdefg0123456789.+~"
-CANON = {"name": ["a%d" % i for i in range(1, 40)],
-         "qual": QUAL_POOL,
-         "ver": ["%d.0" % i for i in range(1, 40)],
-         "arch": ARCH_POOL,
-         "prof": PROF_POOL}
+POOLS = {"qual": QUAL_POOL, "arch": ARCH_POOL, "prof": PROF_POOL}
+
+
+def canon_payload(kind, i):
+    """the canonical text of payload id i + 1 (tables of any size: the long lists of PkgRelationCount)"""
+    if kind == "name":
+        return "a%d" % (i + 1)
+    if kind == "ver":
+        return "%d.0" % (i + 1)
+    pool = POOLS[kind]
+    return pool[i] if i < len(pool) else "%s%d" % ({"qual": "q", "arch": "cpu", "prof": "prof"}[kind], i + 1)
 
 
 # size dimension of the concretization (notes/SIZE_STRESS.md): the tokens of the specification are
@@ -153,6 +193,15 @@ BOUNDARY_LENGTHS = (1, 2, 7, 8, 9, 15, 16, 17, 31, 32, 33, 63, 64, 65, 71, 72, 7
 BOUNDARY_NUMBERS = (0, 9, 10, 99, 100, 2 ** 15, 2 ** 16, 2 ** 31 - 1, 2 ** 31, 2 ** 32 - 1, 2 ** 32, 2 ** 63 - 1,
                     2 ** 63, 10 ** 18)
 BOUNDARY_COUNTS = (9, 10, 11, 16, 17, 31, 32, 33, 99, 100, 101)
+# every list level of the grammar (conjunction, alternatives, architecture list, restriction groups, terms of a
+# group) is split by its own regex: counts around and beyond a byte-sized bound (re.split(..., 256)), 1000+
+LEVELS = ("conj", "alt", "arch", "groups", "terms")
+LEVEL_NAMES = {"conj": "conjuncts", "alt": "alternatives", "arch": "architecture list entries",
+               "groups": "restriction groups", "terms": "terms of a restriction group"}
+NEAR_COUNTS = (255, 256, 257)
+BEYOND_COUNTS = (258, 259, 300)
+FAR_COUNTS = (1000, 1024, 1025)
+LONG_COUNTS = BOUNDARY_COUNTS + NEAR_COUNTS + BEYOND_COUNTS + FAR_COUNTS[:1]
 
 
 def boundary_length(rng):
@@ -234,20 +283,27 @@ class Conc:
         self.rev = {k: {s: i for i, s in enumerate(v) if i} for k, v in text.items()}
 
     @classmethod
-    def draw(cls, rng, need, canonical=False, stress=False):
+    def draw(cls, rng, need, canonical=False, stress=False, maxlen=None):
         """stress: every payload gets a boundary length (names, versions, architecture names,
-        qualifiers, profile names of 1 .. 8193 characters, epochs of up to 12 and more digits)"""
+        qualifiers, profile names of 1 .. 8193 characters -- at most maxlen --, epochs of up to 12 and
+        more digits)"""
         text = {}
         for kind in PAYLOAD_KINDS:
             n = need.get(kind, 0)
             if canonical:
-                vals = CANON[kind][:n]
+                vals = [canon_payload(kind, i) for i in range(n)]
             else:
-                vals = []
+                vals, seen = [], set()
                 while len(vals) < n:
-                    s = gen_payload(rng, kind, boundary_length(rng) if stress else None)
-                    if s not in vals or (stress and len(s) < 3):
-                        vals.append(s if s not in vals else s + str(len(vals)))
+                    # a table larger than the pool of real names (long lists) continues with generated words
+                    wide = kind in POOLS and len(vals) >= len(POOLS[kind]) - 1
+                    s = gen_payload(rng, kind, min(boundary_length(rng), maxlen or 8193) if stress else
+                                    rng.choice((2, 3, 4, 5, 6, 8, 11, 14)) if wide else None)
+                    if s not in seen or (stress and len(s) < 3):
+                        while s in seen:
+                            s += str(len(vals))
+                        vals.append(s)
+                        seen.add(s)
             text[kind] = [None] + vals
         return cls(text)
 
@@ -421,7 +477,7 @@ def tokens_to_text(codes, conc):
     """the string TLC predicts: concretization of a token code sequence"""
     out = []
     for c in codes:
-        k, i = KINDS[c // 1000 - 1], c % 1000
+        k, i = KINDS[c // TOKBASE - 1], c % TOKBASE
         if k in FIXED_TEXT:
             out.append(FIXED_TEXT[k])
         elif k == "op":
@@ -449,7 +505,9 @@ def tokenize(s, conc):
     after_colon = False
 
     def emit(kind, ident=0):
-        out.append(KNO[kind] * 1000 + (BAD if ident == BAD_ID else ident))
+        if ident >= BAD:
+            raise core.MachineryError("payload id %d does not fit the token code" % ident)
+        out.append(KNO[kind] * TOKBASE + (BAD if ident == BAD_ID else ident))
     while i < n:
         c = s[i]
         m = _BLANK.match(s, i)
@@ -525,18 +583,12 @@ def tokenize(s, conc):
 def emitted(w):
     """the warnings of a catch_warnings(record=True) list that the calls under observation emitted:
     a ResourceWarning is raised by the garbage collector for whatever object it happens to finalize
-    (catch_warnings is process-wide, other harness threads run meanwhile), and only warnings attributed
-    to the code under test or to its caller (this file: stacklevel 2) count"""
-    here = os.path.realpath(__file__)
-    repo = os.path.realpath(os.environ.get("VERIF_REPO", "/repo")) + os.sep
-    out = []
-    for x in w:
-        if issubclass(x.category, ResourceWarning):
-            continue
-        f = os.path.realpath(x.filename) if x.filename else ""
-        if f == here or f.startswith(repo):
-            out.append(x)
-    return out
+    (catch_warnings is process-wide, other harness threads run meanwhile); deprecation / import / bytes
+    warnings are not the parser's either"""
+    # the file a record is attributed to depends on the stacklevel the library passes to warn(): it is not looked at
+    # (a benign change of the stacklevel must not hide warnings, nor must this filter make a tree look silent)
+    skip = (ResourceWarning, DeprecationWarning, PendingDeprecationWarning, ImportWarning, BytesWarning)
+    return [x for x in w if not issubclass(x.category, skip)]
 
 
 API_VARIANTS = 6
@@ -590,15 +642,30 @@ MIXIN_FIELDS = (
     + [("Sources", f) for f in ("Build-Depends", "Build-Depends-Indep", "Build-Depends-Arch", "Build-Conflicts",
                                 "Build-Conflicts-Indep", "Build-Conflicts-Arch", "Binary")]
     + [("BuildInfo", "Installed-Build-Depends")])
-MIXIN_FORMS = ("dict", "str", "bytes", "lines", "iter_paragraphs", "deepcopy")
+# input forms of a paragraph: the in-memory ones, then every kind of file object / line source
+# (notes/SIZE_STRESS.md part 4) handed to the constructor ("file:") and to Cls.iter_paragraphs ("iter:")
+MIXIN_FORMS = (("dict", "str", "bytes", "lines", "iter_paragraphs", "deepcopy")
+               + tuple("file:" + k for k in ff.FILE_KINDS) + tuple("iter:" + k for k in ff.FILE_KINDS))
+UNBUFFERED = "buffering=0"
 
 
-def make_paragraph(cls_name, field, value, form):
+def make_paragraph(cls_name, field, value, form, align=None, note=None):
+    """a paragraph object of class cls_name whose relation field `field` has the text `value`, built from
+    the input form `form`.  align (a number, see fileforms_c13.aligned_paragraph): the text gets a pad
+    field that puts a line end / a separator of the value on a block boundary (2**9 .. 2**17); what was
+    done is appended to the list `note`."""
     import debian.deb822 as m
     cls = getattr(m, cls_name)
     text = "Package: zz\n" + ("%s: %s\n" % (field, value) if value is not None else "")
     if form == "dict":
         return cls(dict([("Package", "zz")] + ([(field, value)] if value is not None else [])))
+    if align is not None and value is not None and not (UNBUFFERED in form and len(value) > 6000):
+        trailer = "\nPackage: yy\n%s: zz-second\n" % field if form.startswith("iter") and align % 2 else ""
+        t, desc = ff.aligned_paragraph(field, value, align // 2, trailer)
+        if t is not None and not (UNBUFFERED in form and len(t) > 20000):
+            text = t
+            if note is not None:
+                note.append(desc)
     if form == "str":
         return cls(text)
     if form == "bytes":
@@ -607,7 +674,32 @@ def make_paragraph(cls_name, field, value, form):
         return cls(text.splitlines(True))
     if form == "iter_paragraphs":
         return next(iter(cls.iter_paragraphs(text.splitlines(True), use_apt_pkg=False)))
-    return copy.deepcopy(cls(text))
+    if form == "deepcopy":
+        return copy.deepcopy(cls(text))
+    how, kind = form.split(":", 1)
+    with ff.Opened(kind, text.encode("utf-8"), salt=len(text)) as f:
+        if how == "file":
+            return cls(f)
+        return next(iter(cls.iter_paragraphs(f, use_apt_pkg=False)))
+
+
+def mixin_plan(k):
+    """what the number k selects: class + field, two input forms, the alignment"""
+    cls_name, field = MIXIN_FIELDS[k % len(MIXIN_FIELDS)]
+    form = MIXIN_FORMS[(k // len(MIXIN_FIELDS)) % len(MIXIN_FORMS)]
+    form2 = MIXIN_FORMS[(k // len(MIXIN_FIELDS) + 1 + k % 4 + 6 * (k % 5)) % len(MIXIN_FORMS)]
+    align = (k >> 7) if (k >> 5) % 3 == 0 else None
+    return cls_name, field, form, form2, align
+
+
+def count_form(diag, form, notes):
+    if form.startswith(("file:", "iter:")):
+        diag["fobj|" + form] = diag.get("fobj|" + form, 0) + 1
+    for n in notes:
+        key = "align|%s (%s)" % (re.sub(r" at offset.*", "", n), form.split(":")[0])
+        diag[key] = diag.get(key, 0) + 1
+        key = "alignat|" + re.sub(r".* at offset ", "", n)
+        diag[key] = diag.get(key, 0) + 1
 
 
 def spell(field, k):
@@ -619,20 +711,24 @@ def mixin_leg(r_py, s, k, diag):
     object that is NOT modified after construction: same statement, same verdicts.  k selects class,
     field, input form and key spelling.  Afterwards (UNSPECIFIED, outcomes counted): `relations` after
     the field was assigned / deleted, and a field added after construction."""
-    cls_name, field = MIXIN_FIELDS[k % len(MIXIN_FIELDS)]
-    form = MIXIN_FORMS[(k // len(MIXIN_FIELDS)) % len(MIXIN_FORMS)]
-    form2 = MIXIN_FORMS[(k // len(MIXIN_FIELDS) + 1 + k % 4) % len(MIXIN_FORMS)]
-    where = "%s(%s input).relations[%r] for %s: %r" % (cls_name, form, spell(field, k), field, s)
+    cls_name, field, form, form2, align = mixin_plan(k)
+    notes, notes2 = [], []
+    where = "%s(%s input).relations[%r] for %s: %s" % (cls_name, form, spell(field, k), field, ab(s))
     try:
         with warnings.catch_warnings(record=True) as w:
             warnings.simplefilter("always")
-            o1 = make_paragraph(cls_name, field, s, form)
-            o2 = make_paragraph(cls_name, field, s, form2)          # a second live object, another variant
+            o1 = make_paragraph(cls_name, field, s, form, align, notes)
+            o2 = make_paragraph(cls_name, field, s, form2, None if align is None else align + 3, notes2)   # a second live object, another variant
+            if notes:
+                where = "%s(%s input; a pad field puts %s).relations[%r] for %s: %s" % (
+                    cls_name, form, notes[0], spell(field, k), field, ab(s))
+            count_form(diag, form, notes)
+            count_form(diag, form2, notes2)
             got = o1.relations[spell(field, k)]
             other = [f for c, f in MIXIN_FIELDS if c == cls_name and f != field]
             absent = o1.relations[other[k % len(other)].lower()] if other else []
             eq = got == r_py
-            shown = repr(got)
+            shown = ab(got, 150) + ("; first difference: " + where_differs(got, r_py) if not eq and len(repr(r_py)) > 1200 else "")
             again = call_str(got, k)
             edit_in_place(got)                                      # the caller edits what it got from o1
             got2 = o2.relations[spell(field, k + 1)]
@@ -641,16 +737,16 @@ def mixin_leg(r_py, s, k, diag):
     except Exception as e:       # noqa: BLE001 -- observation
         return "%s raised %s: %s" % (where, type(e).__name__, e)
     if not eq:
-        return "%s = %s, specification (Inverse): %r" % (where, shown, r_py)
+        return "%s = %s, specification (Inverse): %s" % (where, shown, ab(r_py))
     if w:
-        return "%s emitted %r" % (where, "%s: %s" % (w[0].category.__name__, w[0].message))
+        return "%s emitted %s" % (where, ab("%s: %s" % (w[0].category.__name__, w[0].message)))
     if again != s:
-        return "PkgRelation.str of %s = %r" % (where, again)
+        return "PkgRelation.str of %s = %s" % (where, ab(again))
     if absent != []:
         return "%s: a relation field that is absent gives %r, not []" % (where, absent)
     if not eq2:
-        return "%s: a second paragraph object (%s input) gives %r after the caller edited the first one's result in place" % (
-            where, form2, got2)
+        return "%s: a second paragraph object (%s input%s) gives %r after the caller edited the first one's result in place" % (
+            where, form2, "; a pad field puts " + notes2[0] if notes2 else "", ab(got2))
     # ---- unspecified zone: the paragraph is modified after construction
     try:
         with warnings.catch_warnings(record=True):
@@ -674,18 +770,46 @@ def mixin_leg(r_py, s, k, diag):
     return None
 
 
+def ab_s(t, keep=600):
+    """for messages: the head and the tail of a long text (fields of hundreds of relations)"""
+    return t if len(t) <= 2 * keep + 60 else "%s ...[%d characters]... %s" % (t[:keep], len(t) - 2 * keep, t[-keep:])
+
+
+def ab(x, keep=600):
+    return ab_s(repr(x), keep)
+
+
+def where_differs(got, want, path="result"):
+    """message text only: the first place where a returned structure differs from the expected one"""
+    if isinstance(got, (list, tuple)) and isinstance(want, (list, tuple)) and not (want and isinstance(want[0], (bool, str)) and len(want) == 2):
+        for i, (g, w) in enumerate(zip(got, want)):
+            if g != w:
+                return where_differs(g, w, "%s[%d]" % (path, i)) + (
+                    "; %s has %d items, expected %d" % (path, len(got), len(want)) if len(got) != len(want) else "")
+        return "%s has %d items, expected %d" % (path, len(got), len(want))
+    if isinstance(got, dict) and isinstance(want, dict):
+        for k in want:
+            if k not in got or got[k] != want[k]:
+                return where_differs(got.get(k, "<missing>"), want[k], "%s[%r]" % (path, k))
+    return "%s is %s, expected %s" % (path, ab(got, 150), ab(want, 150))
+
+
 def judge(r_py, o):
     """verdict observables of the property; the expected values are TLC's (Inverse: the parse is the
     structure itself; NoWarning; Stable)"""
     if o["exc"]:
-        return "str(r) = %r; raised %s; specification: parses back to r" % (o["s"], o["exc"])
+        return "str(r) = %s; raised %s; specification: parses back to r" % (ab(o["s"]), ab(o["exc"]))
     if o["p"] != r_py:
-        return "parse_relations(%r) = %r, specification (Inverse): %r%s" % (
-            o["s"], o["p"], r_py, ("; warning %r" % o["warn"][0]) if o["warn"] else "")
+        if len(repr(r_py)) > 1200:          # a long field: where the parse differs comes first
+            return "parse_relations(str(r)) differs from r (Inverse) at %s%s; str(r) = %s; parse = %s; r = %s" % (
+                where_differs(o["p"], r_py), ("; warning %s" % ab(o["warn"][0], 150)) if o["warn"] else "",
+                ab(o["s"], 150), ab(o["p"], 150), ab(r_py, 150))
+        return "parse_relations(%s) = %s, specification (Inverse): %s%s" % (
+            ab(o["s"]), ab(o["p"]), ab(r_py), ("; warning %s" % ab(o["warn"][0])) if o["warn"] else "")
     if o["warn"]:
-        return "parse_relations(%r) emitted %r, specification (NoWarning): none" % (o["s"], o["warn"][0])
+        return "parse_relations(%s) emitted %s, specification (NoWarning): none" % (ab(o["s"]), ab(o["warn"][0]))
     if o["s2"] != o["s"]:
-        return "str(parse_relations(%r)) = %r, specification (Stable): the same string" % (o["s"], o["s2"])
+        return "str(parse_relations(%s)) = %s, specification (Stable): the same string" % (ab(o["s"]), ab(o["s2"]))
     return None
 
 
@@ -778,7 +902,7 @@ def run_history(r_py, o, with_copy=True, snap=None, order=None):
                 warnings.simplefilter("always")
                 latest = PkgRelation.parse_relations(o["s"])
                 # (snapshots are taken now: the structure is edited in the next round)
-                h["re"].append({"eq": latest == r_py, "repr": repr(latest), "s": PkgRelation.str(latest),
+                h["re"].append({"eq": latest == r_py, "repr": ab(latest), "s": PkgRelation.str(latest),
                                 "warn": ["%s: %s" % (x.category.__name__, x.message) for x in emitted(w)],
                                 "abs": snap(latest) if snap else None})
     except Exception as e:       # noqa: BLE001 -- observation
@@ -793,12 +917,12 @@ def judge_history(r_py, o, h):
     """same verdict observables, for the later calls of the history: Parse does not depend on what
     was parsed or edited before (PkgRelationMemo: MemoTransparent)"""
     if h["exc"]:
-        return "after the caller edited the result of parse_relations(%r) in place: raised %s" % (o["s"], h["exc"])
+        return "after the caller edited the result of parse_relations(%s) in place: raised %s" % (ab(o["s"]), ab(h["exc"]))
     if h["reordered"] is not None and h["reordered"] != o["s"]:
-        return ("str of the structure parse_relations(%r) returned, after the caller re-inserted its dict keys in "
-                "another order (d[k] = d.pop(k)), = %r" % (o["s"], h["reordered"]))
+        return ("str of the structure parse_relations(%s) returned, after the caller re-inserted its dict keys in "
+                "another order (d[k] = d.pop(k)), = %s" % (ab(o["s"]), ab(h["reordered"])))
     if not h["fmtsame"]:
-        return "str(r) no longer gives %r after an edited copy of r was formatted" % (o["s"],)
+        return "str(r) no longer gives %s after an edited copy of r was formatted" % (ab(o["s"]),)
     if h["o_rc"] is not None:
         m = judge(h["rc"], h["o_rc"])
         if m:
@@ -806,13 +930,13 @@ def judge_history(r_py, o, h):
     for k, e in enumerate(h["re"]):
         if not e["eq"] or e["s"] != o["s"] or e["warn"]:
             what = ("= %s" % e["repr"]) if not e["eq"] else (
-                "emitted %r" % e["warn"][0] if e["warn"] else "formats as %r" % e["s"])
-            return ("call %d of parse_relations(%r) -- the caller had edited the structure returned by call %d in "
-                    "place -- %s, specification (Parse does not depend on history): %r, no warning, same string"
-                    % (k + 2, o["s"], k + 1, what, r_py))
+                "emitted %s" % ab(e["warn"][0]) if e["warn"] else "formats as %s" % ab(e["s"]))
+            return ("call %d of parse_relations(%s) -- the caller had edited the structure returned by call %d in "
+                    "place -- %s, specification (Parse does not depend on history): %s, no warning, same string"
+                    % (k + 2, ab(o["s"]), k + 1, what, ab(r_py)))
     m = judge(h["r_share"], h["o_share"])
     if m:
-        return "relation sharing an alternative with %r (whose parses the caller had edited in place): %s" % (o["s"], m)
+        return "relation sharing an alternative with %s (whose parses the caller had edited in place): %s" % (ab(o["s"]), m)
     return None
 
 
@@ -895,12 +1019,29 @@ def container_variants(rel_abs, conc, r_py, s, diag):
 
 
 def big_variant(r_py, n, how):
-    """the structure of a case with a boundary COUNT: its conjuncts (how = 'conj') or the alternatives
-    of its first conjunct (how = 'alt') repeated up to n items -- identical items included"""
+    """the structure of a case with a boundary COUNT at one list level: its conjuncts (how = 'conj'), the
+    alternatives of its first conjunct ('alt'), the entries of its first architecture list ('arch'), the
+    groups of its first restriction formula ('groups') or the terms of the first group of that formula
+    ('terms') repeated up to n items -- identical items included.  None: the case has no such list."""
     if how == "conj":
         return [copy.deepcopy(r_py[i % len(r_py)]) for i in range(n)]
-    first = [copy.deepcopy(r_py[0][i % len(r_py[0])]) for i in range(n)]
-    return [first] + copy.deepcopy(r_py[1:])
+    if how == "alt":
+        first = [copy.deepcopy(r_py[0][i % len(r_py[0])]) for i in range(n)]
+        return [first] + copy.deepcopy(r_py[1:])
+    out = copy.deepcopy(r_py)
+    for alts in out:
+        for d in alts:
+            if how == "arch" and d["arch"]:
+                d["arch"] = [d["arch"][i % len(d["arch"])] for i in range(n)]
+                return out
+            if how == "groups" and d["restrictions"]:
+                d["restrictions"] = [list(d["restrictions"][i % len(d["restrictions"])]) for i in range(n)]
+                return out
+            if how == "terms" and d["restrictions"]:
+                g = d["restrictions"][0]
+                d["restrictions"][0] = [g[i % len(g)] for i in range(n)]
+                return out
+    return None
 
 
 # ------------------------------------------------------------------ TLC output
@@ -994,6 +1135,29 @@ def spec_negative_controls(ctx, quick=False):
         if r.violated != "MemoTransparent":
             raise core.MachineryError("negative control SharedNested (DeepStore = %s): expected TLC to report MemoTransparent, got %r" % (deep, r.violated))
         done.append("SharedNested%s -> MemoTransparent (PkgRelationMemo)" % (" + DeepStore" if deep == "TRUE" else ""))
+    # the count dimension: a splitter that stops after 256 separators (re.split(pattern, text, 256)) is invisible
+    # to every list of at most 257 items (LimitBites holds in every state TLC looks at) and breaks the invariants
+    # at 258 items -- at every list level
+    with open(os.path.join(core.SPEC, "MC_PkgRelationCount_neg.cfg")) as f:
+        base = f.read()
+    opts = ["-XX:ParallelGCThreads=2", "-Xss16m"]
+    r = ctx.tlc("PkgRelationCount", base, workers=1, count=False, java_opts=opts)
+    if r.violated != "CountProps":
+        raise core.MachineryError("negative control SplitLimit: expected TLC to report CountProps, got %r" % (r.violated,))
+    done.append("SplitLimit = 256 at every list level -> CountProps at 258 items, LimitBites holds (PkgRelationCount)")
+    if not quick:
+        for lv in LEVELS:
+            cfg = re.sub(r"(?m)^  (LimitedSplits|Levels) = .*$", r'  \1 = {"%s"}' % lv, base)
+            r = ctx.tlc("PkgRelationCount", cfg, workers=1, count=False, java_opts=opts)
+            if r.violated != "CountProps":
+                raise core.MachineryError("negative control SplitLimit (%s): expected TLC to report CountProps, got %r" % (lv, r.violated))
+            done.append("SplitLimit = 256 for the %s -> CountProps (PkgRelationCount)" % LEVEL_NAMES[lv])
+        cfg = base.replace("INVARIANT CountProps\n", "")
+        assert cfg != base
+        r = ctx.tlc("PkgRelationCount", cfg, workers=2, count=False, java_opts=opts)
+        if r.violated or not r.ok:
+            raise core.MachineryError("negative control SplitLimit: LimitBites does not hold (%r)" % (r.violated,))
+        done.append("SplitLimit = 256: the invariants fail exactly for the lists of more than 257 items (LimitBites holds in all %d states)" % r.distinct)
     return done
 
 
@@ -1020,6 +1184,11 @@ class _Drifts:
     def drift(self, what):
         if len(self.items) < 10:
             self.items.append(what)
+
+
+def mix_no(hs):
+    """the number that selects class, field, input forms and alignment of the relations-property leg"""
+    return zlib.crc32(b"relations %d" % hs) & 0x7fffffff
 
 
 def prepare_replay(ctx, quick):
@@ -1075,31 +1244,32 @@ def _replay_chunk(lines):
             msg, s, r_py = check_case(dr, rel_abs, v["t"], conc, diag, with_copy=(h >> 3) % 4 == 0,
                                       history=(h >> 7) % 2 == 0, order=order,
                                       variants=(hs >> 5) % 8 == 0, api=(hs >> 2) % API_VARIANTS,
-                                      mixin=(hs >> 13) % (len(MIXIN_FIELDS) * len(MIXIN_FORMS) * 4)
-                                      if (hs >> 9) % 8 == 0 else None)
+                                      mixin=mix_no(hs) if (hs >> 9) % 8 == 0 else None)
             if (hs >> 9) % 8 == 0:
                 diag["relations_property_legs"] = diag.get("relations_property_legs", 0) + 1
             res["nrun"] += 1
             big = None
             if msg is None and (hs >> 6) % (512 if quick else 128) == 1:
                 # count dimension: the same conjuncts / alternatives repeated up to a boundary count
-                big = {"n": BOUNDARY_COUNTS[(hs >> 15) % len(BOUNDARY_COUNTS)], "how": ("conj", "alt")[(hs >> 19) % 2]}
+                big = {"n": LONG_COUNTS[(hs >> 15) % len(LONG_COUNTS)], "how": LEVELS[(hs >> 19) % len(LEVELS)]}
                 r_big = big_variant(r_py, big["n"], big["how"])
-                msg = judge(r_big, run_real(r_big))
+                if r_big is None:                   # the case has no architecture list / formula
+                    big["how"] = LEVELS[(hs >> 19) % 2]
+                    r_big = big_variant(r_py, big["n"], big["how"])
+                msg = judge(r_big, run_real(r_big, (hs >> 2) % API_VARIANTS))
                 res["sizes"]["%s x%d" % (big["how"], big["n"])] = res["sizes"].get("%s x%d" % (big["how"], big["n"]), 0) + 1
                 if msg:
-                    msg = "[%d %s] %s" % (big["n"], "conjuncts" if big["how"] == "conj" else "alternatives", msg)
+                    msg = "[%d %s] %s" % (big["n"], LEVEL_NAMES[big["how"]], msg)
             if stressed:
                 res["sizes"]["boundary-length payloads"] = res["sizes"].get("boundary-length payloads", 0) + 1
             if msg:
                 res["nfail"] += 1
                 # the smallest failing structures are reported (canonical payload first)
-                key = (msg.startswith("[history]") + msg.startswith("[relations"), sum(len(x) for x in rel_abs), len(v["t"]), not canonical,
-                       len(s or ""), h)
+                key = (msg.startswith("[history]") + msg.startswith("[relations"), stressed, big["n"] if big else 0,
+                       sum(len(x) for x in rel_abs), len(v["t"]), not canonical, len(s or ""), h)
                 res["failing"].append((key, {"kind": "case", "abstract": rel_abs, "tokens": v["t"], "conc": conc.to_json(),
                                              "string": s, "order": order, "big": big, "api": (hs >> 2) % API_VARIANTS,
-                                             "mixin": (hs >> 13) % (len(MIXIN_FIELDS) * len(MIXIN_FORMS) * 4)
-                                             if (hs >> 9) % 8 == 0 else None}, msg))
+                                             "mixin": mix_no(hs) if (hs >> 9) % 8 == 0 else None}, msg))
                 res["failing"].sort(key=lambda x: x[0])
                 del res["failing"][20:]
                 break
@@ -1164,8 +1334,91 @@ def replay_cases(ctx, lines, quick, workers):
     ctx.extra["cases_per_list_shape"] = dict(sorted(per["per_shape"].items()))
     ctx.extra["cases_per_optional_part_combination"] = dict(sorted(per["per_parts"].items()))
     ctx.extra["cases_per_operator"] = dict(sorted(per["per_op"].items()))
-    ctx.extra["diagnostics"] = dict(sorted(per["diag"].items()))
+    ctx.extra["diagnostics"] = per["diag"]          # (sorted by the caller, after the long-list cases were added)
     return tot["ncase"]
+
+
+# ------------------------------------------------------------------ (a') replay of the long-list cases
+
+def _replay_count(line):
+    """worker: one CASE line of PkgRelationCount -- a structure in which ONE list level (conjunction,
+    alternatives, architecture list, restriction groups, terms of a group) has hundreds of items -- goes
+    the way of every other case: concretization (canonical / ordinary / boundary lengths), key orders,
+    calling conventions, container variants, the history and the relations property (the long field text
+    read from every kind of file object, line ends on block boundaries)"""
+    import random
+    v, h = _case_of(line)
+    rel_abs = case_to_abstract(v["r"])
+    hs = h ^ (_W["seed"] * 40503)
+    rng = random.Random(hs)
+    mode = ("canonical", "ordinary", "ordinary", "boundary lengths")[(hs >> 3) % 4]
+    need = need_of(rel_abs)
+    # (a thousand payloads of thousands of characters each would only slow the run down: the longest ones
+    # go into the cases of up to some hundred items)
+    conc = Conc.draw(rng, need, canonical=mode == "canonical", stress=mode == "boundary lengths",
+                     maxlen=257 if sum(need.values()) > 700 else None)
+    dr, diag = _Drifts(), {}
+    order, api, mixin = (hs >> 4) % len(KEY_ORDERS), (hs >> 2) % API_VARIANTS, mix_no(hs)
+    msg, s, _ = check_case(dr, rel_abs, v["t"], conc, diag, with_copy=True, history=True, order=order,
+                           variants=True, api=api, mixin=mixin)
+    out = {"h": h, "key": "%s x%d" % (v["lv"], v["n"]), "lv": v["lv"], "n": v["n"], "pos": v["pos"], "mode": mode,
+           "diag": diag, "drifts": dr.items, "len": len(s or ""), "natoms": sum(len(a) for a in rel_abs),
+           "msg": None, "case": None}
+    if msg:
+        out["msg"] = "[%d %s, %s payloads] %s" % (v["n"], LEVEL_NAMES[v["lv"]], mode, msg)
+        out["case"] = {"kind": "case", "abstract": rel_abs, "tokens": v["t"], "conc": conc.to_json(), "string": s,
+                       "order": order, "big": None, "api": api, "mixin": mixin,
+                       "long_list": {"level": v["lv"], "count": v["n"], "position": v["pos"]}}
+    return out
+
+
+def replay_count_cases(ctx, lines, workers, diag_into):
+    """replay every CASE line of PkgRelationCount (worker processes); the smallest failing counts are reported"""
+    per, failing, drifts, lens, modes = {}, [], [], {}, {}
+    n = 0
+    sample = None
+    for res in workers.imap_unordered(_replay_count, lines):
+        n += 1
+        per[res["key"]] = per.get(res["key"], 0) + 1
+        modes[res["mode"]] = modes.get(res["mode"], 0) + 1
+        lens[res["lv"]] = max(lens.get(res["lv"], 0), res["len"])
+        for k, c in res["diag"].items():
+            diag_into[k] = diag_into.get(k, 0) + c
+        drifts += res["drifts"]
+        ctx.distinct.add(("count", res["h"]))
+        if res["msg"]:
+            failing.append(((res["msg"].count("[history]") + res["msg"].count("[relations"), res["n"], res["len"], res["h"]),
+                            res["case"], res["msg"]))
+        elif sample is None or (res["n"], res["lv"]) < sample[:2]:
+            sample = (res["n"], res["lv"], res["natoms"], res["len"], res["mode"])
+    ctx.evaluations += n
+    failing.sort(key=lambda x: x[0])
+    for _, case, msg in failing[:ctx.max_violation_files]:
+        ctx.violation(case, msg[:4000])
+    for d in sorted(set(drifts))[:3]:
+        ctx.drift(d[:700])
+    if sample:
+        ctx.sample("CASE of PkgRelationCount: %d %s (%d atoms, a string of %d characters, %s payloads) parses back to the "
+                   "structure, no warning, same string again; so do the history and the relations property" % (
+                       sample[0], LEVEL_NAMES[sample[1]], sample[2], sample[3], sample[4]))
+    ctx.extra["long_list_cases"] = dict(sorted(per.items()))
+    ctx.extra["long_list_cases_failing"] = len(failing)
+    ctx.extra["long_list_concretizations"] = dict(sorted(modes.items()))
+    ctx.extra["long_list_longest_string"] = dict(sorted(lens.items()))
+    return n
+
+
+def split_form_counters(ctx, diag):
+    """the counters of input forms / alignments (count_form) leave the diagnostics for their own evidence keys"""
+    kinds, aligned, at = {}, {}, {}
+    for k in [k for k in diag if k.startswith(("fobj|", "align|", "alignat|"))]:
+        tag, name = k.split("|", 1)
+        {"fobj": kinds, "align": aligned, "alignat": at}[tag][name] = diag.pop(k)
+    for key, d in (("file_object_kinds", kinds), ("aligned_cases", aligned), ("aligned_offsets", at)):
+        cur = ctx.extra.setdefault(key, {})
+        for k, n in d.items():
+            cur[k] = cur.get(k, 0) + n
+        ctx.extra[key] = dict(sorted(cur.items()))
 
 
 # ------------------------------------------------------------------ unspecified zone
@@ -1238,10 +1491,11 @@ def unspecified_zone(ctx):
 
 # ------------------------------------------------------------------ (b) recorded executions
 
-def random_structure(rng, big=None):
+def random_structure(rng, big=None, count=None):
     """a random concrete relation in the Python form (input generation only).  Dict keys are inserted
     in a random one of the 120 orders; now and then a payload has a boundary length; big: one of
-    'conj' / 'alt' / 'arch' / 'groups' / 'terms' -- that count is a boundary count (9 .. 101)"""
+    'conj' / 'alt' / 'arch' / 'groups' / 'terms' -- that list has `count` items (default: a boundary
+    count 9 .. 101), at a random position of the relation"""
     from debian.deb822 import PkgRelation
 
     def payload(kind):
@@ -1256,26 +1510,29 @@ def random_structure(rng, big=None):
             seen.add(s)                      # (identical entries do occur)
             out.append(maker(rng.random() < 0.5, s))
         return out or [maker(True, payload(kind))]
-    count = rng.choice(BOUNDARY_COUNTS if big in ("conj", "alt") else BOUNDARY_COUNTS[:8]) if big else 0
-    nconj = count if big == "conj" else rng.choice((1, 1, 2, 2, 3, 4, 5)) if not big else rng.choice((1, 2))
+    if big and count is None:
+        count = rng.choice(BOUNDARY_COUNTS if big in ("conj", "alt") else BOUNDARY_COUNTS[:8])
+    nconj = count if big == "conj" else rng.choice((1, 1, 2, 2, 3, 4, 5)) if not big else rng.choice((1, 2, 3))
+    where = (rng.randrange(nconj), rng.randrange(2))        # the conjunct (and the alternative) with the long list
     rel = []
     for ci in range(nconj):
         alts = []
-        nalt = count if (big == "alt" and ci == 0) else rng.choice((1, 1, 1, 2, 2, 3, 4)) if not big else rng.choice((1, 2))
-        for _ in range(nalt):
+        nalt = count if (big == "alt" and ci == where[0]) else rng.choice((1, 1, 1, 2, 2, 3, 4)) if not big else rng.choice((1, 2))
+        for ai in range(nalt):
             heavy = rng.random() < 0.5
             pr = 0.6 if heavy else 0.25
             if big in ("conj", "alt"):
                 pr = 0.15
-            force = big in ("arch", "groups", "terms") and not alts
+            force = big in ("arch", "groups", "terms") and ci == where[0] and ai == min(where[1], nalt - 1)
             d = {
                 "name": payload("name"),
                 "archqual": payload("qual") if rng.random() < pr else None,
                 "version": (rng.choice(OPS), payload("ver")) if rng.random() < pr + 0.1 else None,
                 "arch": entries(PkgRelation.ArchRestriction, "arch", count if big == "arch" and force else rng.randint(1, 3))
                 if (rng.random() < pr or (big == "arch" and force)) else None,
-                "restrictions": [entries(PkgRelation.BuildRestriction, "prof", count if big == "terms" and force else rng.randint(1, 3))
-                                 for _ in range(count if big == "groups" and force else rng.randint(1, 3))]
+                "restrictions": [entries(PkgRelation.BuildRestriction, "prof",
+                                         count if big == "terms" and force and gi == where[1] % ng else rng.randint(1, 3))
+                                 for ng in (count if big == "groups" and force else rng.randint(1, 3),) for gi in range(ng)]
                 if (rng.random() < pr or (force and big != "arch")) else None,
             }
             alts.append({k: d[k] for k in rng.choice(KEY_ORDERS)})
@@ -1283,7 +1540,7 @@ def random_structure(rng, big=None):
     return rel
 
 
-def record(r_py):
+def record(r_py, stats=None):
     """one trace: the structure, what the real code made of it (first round trip, then the history:
     edit the result in place and parse the same string again, round trip of a relation sharing an
     alternative, str(r) again after formatting an edited copy), everything interned to ids"""
@@ -1322,19 +1579,23 @@ def record(r_py):
             observed["exception"] = "%s in PkgRelation.str of an equal structure: %s" % (type(e).__name__, e)
 
         # the same string read through the relations property of an unmodified paragraph object
-        k = api * 7 + len(o["s"])
-        cls_name, field = MIXIN_FIELDS[k % len(MIXIN_FIELDS)]
-        form = MIXIN_FORMS[(k // len(MIXIN_FIELDS)) % len(MIXIN_FORMS)]
+        k = zlib.crc32(o["s"].encode("utf-8", "replace")) & 0x7fffffff
+        cls_name, field, form, _, align = mixin_plan(k)
+        notes = []
         try:
             with warnings.catch_warnings(record=True) as w:
                 warnings.simplefilter("always")
-                para = make_paragraph(cls_name, field, o["s"], form)
+                para = make_paragraph(cls_name, field, o["s"], form, align, notes)
+                if stats is not None:
+                    count_form(stats, form, notes)
+                if notes:
+                    form += " input; a pad field puts " + notes[0]
                 pm = para.relations[spell(field, k)]
                 others = [para.relations[f.lower()] for c, f in MIXIN_FIELDS if c == cls_name and f != field]
                 sm = call_str(pm, k)
             trace["pm"] = abstract(pm, conc)
             trace["mixok"] = not emitted(w) and sm == o["s"] and all(x == [] for x in others)
-            observed["relations_property"] = {"object": "%s(%s input).relations[%r]" % (cls_name, form, spell(field, k)),
+            observed["relations_property"] = {"object": "%s(%s%s).relations[%r]" % (cls_name, form, "" if notes else " input", spell(field, k)),
                                               "parsed": repr(pm), "warnings": [str(x.message) for x in emitted(w)],
                                               "str_of_it": sm, "absent_fields": repr([x for x in others if x != []])}
         except Exception as e:       # noqa: BLE001 -- observation
@@ -1378,7 +1639,7 @@ def perturb(rng, codes, conc):
     that were tokenized as top-level names; strip('<> ') takes blanks but not tabs off the formula,
     so no tab is put next to an angle bracket."""
     codes = list(codes)
-    kinds = [KINDS[c // 1000 - 1] for c in codes]
+    kinds = [KINDS[c // TOKBASE - 1] for c in codes]
     if rng.random() < 0.08:
         def droppable(j):
             if kinds[j] in ("sp", "lt"):
@@ -1389,7 +1650,7 @@ def perturb(rng, codes, conc):
             return True
         cand = [j for j in range(len(codes)) if droppable(j)]
         del codes[rng.choice(cand)]
-    kinds = [KINDS[c // 1000 - 1] for c in codes] + ["end"]
+    kinds = [KINDS[c // TOKBASE - 1] for c in codes] + ["end"]
     wordy = set(PAYLOAD_KINDS) | {"bang", "op"}
     out = []
     for j, c in enumerate(codes):
@@ -1555,40 +1816,57 @@ def validate(ctx, traces, with_controls=True, workers=2):
 def explain(meta, at):
     o = meta["observed"]
     if o["exception"]:
-        return "str(r) = %r; raised %s" % (meta["string"], o["exception"])
+        return "str(r) = %s; raised %s" % (ab(meta["string"]), ab_s(o["exception"]))
     if at >= 5 and o.get("relations_property"):
         m = o["relations_property"]
-        extra = "; %s returned %s%s, str of it %r, absent fields %s" % (
-            m["object"], m["parsed"], ("; warnings %r" % m["warnings"]) if m["warnings"] else "", m["str_of_it"], m["absent_fields"])
+        extra = "; %s returned %s%s, str of it %s, absent fields %s" % (
+            ab_s(m["object"]), ab_s(m["parsed"]), ("; warnings %s" % ab(m["warnings"])) if m["warnings"] else "", ab(m["str_of_it"]), m["absent_fields"])
     else:
         extra = ""
     if at >= 4 and o.get("history"):
         hh = o["history"]
-        return "[%s] str(r) = %r; first parse_relations returned %s; after in-place edits of the returned structures the later calls returned %s%s; sharing relation %r parsed as %s%s; str(r) unchanged after formatting an edited copy: %s" % (
-            STEP.get(at, "?"), meta["string"], o["parsed"], " then ".join(hh["later_parses_after_in_place_edits"]),
-            ("; warnings %r" % hh["warnings"]) if hh["warnings"] else "", hh["sharing_relation_string"],
-            hh["sharing_relation_parse"], ("; warnings %r" % hh["sharing_relation_warnings"]) if hh["sharing_relation_warnings"] else "",
+        return "[%s] str(r) = %s; first parse_relations returned %s; after in-place edits of the returned structures the later calls returned %s%s; sharing relation %s parsed as %s%s; str(r) unchanged after formatting an edited copy: %s" % (
+            STEP.get(at, "?"), ab(meta["string"]), ab_s(o["parsed"]), " then ".join(hh["later_parses_after_in_place_edits"]),
+            ("; warnings %s" % ab(hh["warnings"])) if hh["warnings"] else "", ab(hh["sharing_relation_string"]),
+            ab_s(hh["sharing_relation_parse"] or ""), ("; warnings %s" % ab(hh["sharing_relation_warnings"])) if hh["sharing_relation_warnings"] else "",
             hh["str_r_unchanged_after_formatting_an_edited_copy"]) + extra
-    return "[%s] str(r) = %r; parse_relations returned %s%s; second string %r; an equal structure with its dict keys in parse order formats as %r" % (
-        STEP.get(at, "?"), meta["string"], o["parsed"], ("; warnings %r" % o["warnings"]) if o["warnings"] else "",
-        o["second_string"], o.get("string_of_the_equal_structure_in_parse_key_order"))
+    return "[%s] str(r) = %s; parse_relations returned %s%s; second string %s; an equal structure with its dict keys in parse order formats as %s" % (
+        STEP.get(at, "?"), ab(meta["string"]), ab_s(o["parsed"]), ("; warnings %s" % ab(o["warnings"])) if o["warnings"] else "",
+        ab(o["second_string"]), ab(o.get("string_of_the_equal_structure_in_parse_key_order")))
 
 
-def make_traces(ctx, n, nprobe, nbig):
+def long_list_plan(rng, quick):
+    """(level, count) of the recorded executions with a long list: every level meets, in every run, a count
+    next to a byte-sized bound, one right beyond it and one of a thousand items (thorough: the whole ladder)"""
+    plan = [(lv, None) for lv in LEVELS] * (2 if quick else 8)
+    for lv in LEVELS:
+        if quick:
+            plan += [(lv, rng.choice(NEAR_COUNTS)), (lv, rng.choice(BEYOND_COUNTS)), (lv, rng.choice(FAR_COUNTS))]
+        else:
+            plan += [(lv, c) for c in NEAR_COUNTS + BEYOND_COUNTS + (512, rng.choice(FAR_COUNTS))]
+    return plan
+
+
+def make_traces(ctx, n, nprobe, quick):
     traces, metas = [], []
+    stats, sizes = {}, {}
     while len(traces) < n:
         r_py = random_structure(ctx.rng)
-        tr, meta = record(r_py)
+        tr, meta = record(r_py, stats)
         traces.append(tr)
         metas.append(meta)
         if len(traces) % 4 == 0 and len(traces) < n:      # an edited copy right after the original
-            tr, meta = record(edited_copy(r_py))
+            tr, meta = record(edited_copy(r_py), stats)
             traces.append(tr)
             metas.append(meta)
-    for i in range(nbig):
-        tr, meta = record(random_structure(ctx.rng, big=("conj", "alt", "arch", "groups", "terms")[i % 5]))
+    for lv, count in long_list_plan(ctx.rng, quick):
+        tr, meta = record(random_structure(ctx.rng, big=lv, count=count), stats)
         traces.append(tr)
         metas.append(meta)
+        if count:
+            sizes["%s x%d" % (lv, count)] = sizes.get("%s x%d" % (lv, count), 0) + 1
+    ctx.extra["recorded_long_lists"] = dict(sorted(sizes.items()))
+    ctx.extra["recorded_input_forms"] = stats
     for _ in range(nprobe):
         try:
             tr, meta = record_probe(ctx.rng, random_structure(ctx.rng))
@@ -1633,7 +1911,7 @@ def judge_traces(ctx, traces, metas, rejected, info, fmt_drift):
             metas[ex]["string"], traces[ex]["t"][:12], natoms[ex]))
     for i in bad_rt[:5]:
         ctx.violation(dict(metas[i - 1], trace=traces[i - 1]),
-                      "recorded execution not explained by PkgRelation: " + explain(metas[i - 1], info.get(i, 0)))
+                      ("recorded execution not explained by PkgRelation: " + explain(metas[i - 1], info.get(i, 0)))[:6000])
 
 
 # ------------------------------------------------------------------ the check
@@ -1652,19 +1930,29 @@ def run(ctx):
     ]
     mc_dir = os.path.join(ctx.work, "mc")
     os.makedirs(mc_dir)
+    ff.WORKDIR[0] = ctx.work
+    ccfg = "MC_PkgRelationCount_quick.cfg" if quick else "MC_PkgRelationCount.cfg"
+    cconsts = cfg_constants(ccfg)
+    ctx.extra["long_list_constants"] = {k: cconsts[k] for k in ("Levels", "Counts", "Positions")}
+    ctx.assumptions.append("long lists: one list level at a time has %s items (PkgRelationCount), the others stay short" % cconsts["Counts"])
     workers = prepare_replay(ctx, quick)        # forked before any thread exists
     try:
-        _run_parallel(ctx, quick, cfg, mc_dir, workers)
+        _run_parallel(ctx, quick, cfg, mc_dir, workers, ccfg)
     finally:
         workers.terminate()
 
 
-def _run_parallel(ctx, quick, cfg, mc_dir, workers):
-    with ThreadPoolExecutor(max_workers=3) as pool:
+def _run_parallel(ctx, quick, cfg, mc_dir, workers, ccfg):
+    cnt_dir = os.path.join(ctx.work, "mc-count")
+    os.makedirs(cnt_dir)
+    with ThreadPoolExecutor(max_workers=4) as pool:
         # 1. design level + emission (closed): all structures of the space, in the background (the
         #    bookkeeping of ctx.tlc is done below, in this thread)
         f_mc = pool.submit(core.run_tlc, "PkgRelation", cfg, mc_dir, workers=8, keep_raw=True, want_tags=set(),
                            timeout=900 if quick else 7200, java_opts=["-XX:ParallelGCThreads=4"])
+        #    the count dimension: one list level with hundreds of items (every state is an initial state: one thread)
+        f_cnt = pool.submit(core.run_tlc, "PkgRelationCount", ccfg, cnt_dir, workers=2, keep_raw=True, want_tags=set(),
+                            timeout=900 if quick else 3600, java_opts=["-XX:ParallelGCThreads=2", "-Xss16m"])
         # 2. the invariants can fail
         f_neg = pool.submit(spec_negative_controls, ctx, quick)
         # 3. code -> spec: recorded executions on deeper structures, validated by TLC
@@ -1672,8 +1960,8 @@ def _run_parallel(ctx, quick, cfg, mc_dir, workers):
         unspecified_zone(ctx)
 
         def record_and_validate():
-            traces, metas = make_traces(ctx, *((800, 200, 10) if quick else (6000, 1500, 40)))
-            return (traces, metas) + tuple(validate(ctx, traces, True, 2 if quick else 4))
+            traces, metas = make_traces(ctx, *((800, 200) if quick else (6000, 1500)), quick)
+            return (traces, metas) + tuple(validate(ctx, traces, True, 3 if quick else 4))
         f_val = pool.submit(record_and_validate)
         # 4. spec -> code: every CASE line, replayed while TLC is still enumerating
         ncase = replay_cases(ctx, follow_lines(mc_dir, lambda: not f_mc.done()), quick, workers)
@@ -1684,23 +1972,38 @@ def _run_parallel(ctx, quick, cfg, mc_dir, workers):
         if ncase != r.distinct:
             raise core.MachineryError("TLC found %d states but %d CASE lines were read" % (r.distinct, ncase))
         ctx.traces += ncase
+        diag = ctx.extra["diagnostics"]
+        ncount = replay_count_cases(ctx, follow_lines(cnt_dir, lambda: not f_cnt.done()), workers, diag)
+        rc = f_cnt.result()
+        shutil.rmtree(cnt_dir, ignore_errors=True)
+        if rc.violated:
+            raise core.MachineryError("specification PkgRelationCount violates %s\n%s" % (rc.violated, rc.tail))
+        if ncount != rc.distinct:
+            raise core.MachineryError("TLC found %d long-list states but %d CASE lines were read" % (rc.distinct, ncount))
+        ctx.traces += ncount
+        split_form_counters(ctx, diag)
+        ctx.extra["diagnostics"] = dict(sorted(diag.items()))
         ctx.extra["spec_negative_controls"] = f_neg.result()
         traces, metas, rejected, info, fmt_drift = f_val.result()
     ctx.tlc_runs.append({"module": "PkgRelation", "generated": r.generated, "distinct": r.distinct, "depth": r.depth,
                          "wall_s": round(r.wall, 2), "violated": r.violated})
-    ctx.states += r.distinct
-    ctx.transitions += r.generated
+    ctx.tlc_runs.append({"module": "PkgRelationCount", "generated": rc.generated, "distinct": rc.distinct, "depth": rc.depth,
+                         "wall_s": round(rc.wall, 2), "violated": rc.violated})
+    ctx.states += r.distinct + rc.distinct
+    ctx.transitions += r.generated + rc.generated
+    split_form_counters(ctx, ctx.extra.pop("recorded_input_forms", {}))
     judge_traces(ctx, traces, metas, rejected, info, fmt_drift)
 
 
 def replay(ctx, case):
+    ff.WORKDIR[0] = getattr(ctx, "work", None)
     conc = Conc({k: list(v) for k, v in case["conc"].items()})
     if case["kind"] == "case":
         msg, _, r_py = check_case(ctx, case["abstract"], case["tokens"], conc, {}, order=case.get("order"), variants=True,
                                   api=case.get("api", 0), mixin=case.get("mixin"))
         if msg is None and case.get("big"):
             r_big = big_variant(r_py, case["big"]["n"], case["big"]["how"])
-            msg = judge(r_big, run_real(r_big))
+            msg = judge(r_big, run_real(r_big, case.get("api", 0)))
         return msg
     if case["kind"] == "trace":
         r_py = build(case["abstract"], conc)
